@@ -1452,7 +1452,19 @@ def r_cutset(ctx):
             cps_ = call_points(fz_, step_)
             if not cps_:
                 continue            # merged into a neighbour / renamed beyond recognition: the step's own rules report a missing anchor
-            r_ = fz_.reach([(0, 0)], avoid=cps_)
+            # the closed list of reasons for which a step may skip its work may be tested on either side of the call (a whole-body guard
+            # moved from the callee to this call site is the same program)
+            def th_exempt(atoms, lit):
+                for a_ in atoms:
+                    if a_[0] == 'F' and self_field(a_[1], 'is_exact'):
+                        return True
+                    if a_[0] == 'cmp' and a_[3] == frozenset('<>') and _is_relaxed_lit(('cmp', a_[1], a_[2], frozenset('='))):
+                        return True
+                    if a_[0] == 'in' and M.is_field(a_[1], 'comp_type', 'CompilationInput') and 'Relaxed' not in a_[2]:
+                        return True
+                return False
+            ex_ = {'_compute_local_bounds': lb_exempt, '_compute_thresholds': th_exempt}.get(step_)
+            r_ = fz_.reach([(0, 0)], avoid=cps_, cut_edges=(_cut_edges(fz_, ex_) if ex_ else ()))
             rid_ = {'_compute_local_bounds': 'R08.5', '_compute_thresholds': 'R09.1', '_finalize_cutset': 'R08.2', '_finalize_layers': 'R20.a'}.get(step_, 'R02.6')
             ctx.check(not any(p_ in r_ for p_ in ret_points(fz_)), rid_, '%s/finalize-always-runs/%s' % (tag, step_), fz_, fz_.loc(cps_[0][0]),
                       '_finalize runs %s on every path' % step_, '_finalize can skip %s (a new early exit / guard in front of that step): what the step computes (best nodes, cut-set, local bounds, thresholds) is missing or stale for some compilations' % step_)
